@@ -194,10 +194,12 @@ def post(ex, t, r):
 
 def run(ctx):
     prog = load.program(ctx.repo, ctx.cache)
+    from mirsym.engine import Exec
+    Exec.query_timeout_ms = 120000       # calendar arithmetic over symbolic digits: single queries take tens of seconds under load
     T = templates(ctx)
     ctx.cov['bounds'] = {'offsets': 'every +-hh:mm text (4 symbolic digits)', 'zones': ZONES, 'fraction_digits': '1..9 symbolic digits', 'zone ids for short names': IDS,
                          'NOT covered': 'IANA rule tables, DST transitions, the ~600 named zones (chrono-tz data is not in the MIR dump)'}
-    S = sym.explore_templates(ctx, __import__('props.C06', fromlist=['x']), T, prog, split_depth=4, budget_s=240 if ctx.quick() else 900)
+    S = sym.explore_templates(ctx, __import__('props.C06', fromlist=['x']), T, prog, split_depth=4, budget_s=300 if ctx.quick() else 3000)
     sym.native_check(ctx, S)
     ctx.cov['path_kinds'] = dict(collections.Counter(s['kind'] for s in S))
     mism = 0; validated = 0; unsup = collections.Counter(); lifted = {}
